@@ -564,6 +564,16 @@ def run_periodic(case):
     idx = np.array(case["idx"], dtype=int) % n
     cols32 = [coords[..., idx[:, k], :] for k in range(4)]
 
+    if isinstance(box, np.ndarray) and (n + m + len(case["idx"])) % 2 == 0:
+        # history: the same box array object was used for an earlier periodic call with other
+        # values and then updated in place (successive frames): no state may survive
+        o.label("box_object_reused")
+        real_box = box.copy()
+        box[...] = real_box * 1.75
+        with np.errstate(all="ignore"):
+            struc.displacement(cols32[0], cols32[1], box)
+            struc.distance(cols32[0], cols32[1], box)
+        box[...] = real_box
     with np.errstate(all="ignore"):
         disp = np.asarray(struc.displacement(cols32[0], cols32[1], box), dtype=float)
         disp23 = np.asarray(struc.displacement(cols32[1], cols32[2], box), dtype=float)
